@@ -13,7 +13,7 @@ for n in sorted(os.listdir(os.path.join(V, "seeded"))):
     summ = summ[:230] + ("…" if len(summ) > 230 else "")
     res = ""
     if os.path.exists(os.path.join(d, "result.txt")):
-        res = open(os.path.join(d, "result.txt")).read().strip().replace("\n", " ").replace("|", "/")
+        res = open(os.path.join(d, "result.txt"), errors="replace").read().strip().replace("\n", " ").replace("|", "/")
     m = re.search(r"exit=(\d+) violations=(\d+)", res)
     if m:
         caught = "**caught**" if m.group(1) == "1" and int(m.group(2)) > 0 else "missed"
